@@ -561,6 +561,46 @@ Definition ord_step_ok (s : ord_step) : bool :=
   ofile_eqb (os_after s) (ord_append (os_before s) (os_seq s))
   || ofile_eqb (os_after s) (OFile (os_msgs s) 0).
 
+(* ---------- compaction_cut_points_v1 with the ordinal-index route modelled as well ----------
+   (stores whose full and messages+runs sidecars are intact: a replay then returns the truth stream
+   without rebuilding anything, so a failed count fails again and the message list of the replay is
+   used; [loaded] = message_events is Some, [replayed] = replayed is Some) *)
+Definition msg_seqs (l : log) : list N := map fseq (messages l).
+Definition frame_at (l : log) (s : N) : option frame := nth_error l (N.to_nat s).
+Definition mr_last_of (l : log) : ores N := match rev (msg_seqs l) with s :: _ => OSome s | [] => ONone end.
+
+Fixpoint cut_points_ord_from (me mb : N) (comp full : sfile) (l : log) (ord : ofile) (known : N -> bool)
+         (stride latest : N) (i : N) (replayed loaded : bool) (n : nat) : list cutpoint :=
+  match n with
+  | O => []
+  | S n' =>
+    let ordinal := latest - i * stride in
+    if ordinal =? 0 then []
+    else
+      let by_idx := match ord_by_ordinal ord known ordinal with OSome sq => frame_at l sq | _ => None end in
+      let from_msgs := nth_error (messages (replay_fast full l)) (N.to_nat (ordinal - 1)) in
+      let '(m_opt, rp1, ld1) := match by_idx with
+                                | Some m => (Some m, replayed, loaded)
+                                | None => (from_msgs, true, true)
+                                end in
+      match m_opt with
+      | Some m =>
+        let '(best, rp2) := ckpt_lookup me mb comp full l rp1 (fseq m) in
+        mk_cut_point ordinal m best :: cut_points_ord_from me mb comp full l ord known stride latest (i + 1) rp2 ld1 n'
+      | None => cut_points_ord_from me mb comp full l ord known stride latest (i + 1) rp1 ld1 n'
+      end
+  end.
+
+Definition cut_points_ord (me mb : N) (comp full : sfile) (l : log) (ord : ofile) (known : N -> bool)
+           (stride limit : N) : N * list cutpoint :=
+  let '(count, rp, ld) := match ord_count ord (mr_last_of l) with
+                          | OSome n => (n, false, false)
+                          | _ => (nlen (messages (replay_fast full l)), true, true)
+                          end in
+  let latest := (count / stride) * stride in
+  (count, if latest =? 0 then []
+          else cut_points_ord_from me mb comp full l ord known stride latest 0 rp ld (N.to_nat (clamp_limit limit))).
+
 (* ---------- continuities/index.json: default-thread recovery (find_latest_continuity_for_workspace) ----------
    the continuity_created frames of the whole log, in log order: (timestamp_ms, thread id, workspace key) *)
 Definition created := (N * N * N)%type.
@@ -662,8 +702,9 @@ Record case := {
   c_ord : list ord_step;      (* observed write steps of the ordinal index in this history (first case of a history only) *)
   c_comp : option (option (list rline));  (* Some = the checkpoint sidecar as found, for QLatestCkpt cases where nothing can
                                              rebuild the caches before the look-up; None = not compared *)
-  c_recover : option (N * list created * option N)   (* a default-thread recovery observed after the loss of index.json:
+  c_recover : option (N * list created * option N);  (* a default-thread recovery observed after the loss of index.json:
                                              workspace, continuity_created frames of the log, what ensure_default returned *)
+  c_ordidx : option ofile     (* QCutPoints on a store with intact full and messages+runs sidecars: the ordinal index as found *)
 }.
 
 Definition case_full (c : case) : sfile := option_map (map (resolve_line (c_log c))) (c_full c).
@@ -684,8 +725,13 @@ Definition check_case (k : consts) (c : case) : bool :=
                           (option_map (map (resolve_line (c_log c))) comp) full (c_log c))) (c_fast c)
      | Some comp, QCutPoints stride limit, full =>
        (stride =? 0) ||
-       lN_eqb (enc_cps (cut_points_fast (k_ckpt_events k) (k_ckpt_bytes k)
-                          (option_map (map (resolve_line (c_log c))) comp) full (c_log c) stride limit)) (c_fast c)
+       lN_eqb (enc_cps (match c_ordidx c with
+                        | Some ord => cut_points_ord (k_ckpt_events k) (k_ckpt_bytes k)
+                                        (option_map (map (resolve_line (c_log c))) comp) full (c_log c) ord
+                                        (fun sq => existsb (N.eqb sq) (msg_seqs (c_log c))) stride limit
+                        | None => cut_points_fast (k_ckpt_events k) (k_ckpt_bytes k)
+                                        (option_map (map (resolve_line (c_log c))) comp) full (c_log c) stride limit
+                        end)) (c_fast c)
      | _, _, _ => true
      end
   && match c_recover c with
